@@ -54,6 +54,7 @@ class HashStepOracles(Oracles):
     DOMAINS = {
         "n_cur": (1, 0, 2), "pal_cur": (False, True), "flip": (False, True), "present": (True, False),
         "avail": (True, False), "n_in": (1, 0, 2), "pal_next": (False, True), "join": (True, False),
+        "next_is_cur": (False, True), "next_is_rc_of_cur": (False, True),
     }
 
     def __init__(self, script, stranded, d):
@@ -174,6 +175,17 @@ class HashStepOracles(Oracles):
             a, b = recv(it, args[1]), recv(it, args[2])
             self.observe("join-args", (frozenset(tags_of(a)), frozenset(tags_of(b))))
             return mkbool(self.choose("join", self.DOMAINS["join"]))
+        # ---- equality between the (plain) neighbour and the current k-mer / its reverse complement: a k-mer can be its own neighbour
+        # (homopolymer) or the neighbour of its reverse complement (hairpin); both are facts about the data
+        if name in ("eq", "ne") and fn.get("trait", "").endswith("PartialEq") and len(args) == 2:
+            a, b = recv(it, args[0]), recv(it, args[1])
+            if isinstance(a, Opaque) and isinstance(b, Opaque):
+                for x, y in ((a, b), (b, a)):
+                    tx, ty = tags_of(x), tags_of(y)
+                    if "next" in tx and "plain" in tx and "cur" in ty and "next" not in ty:
+                        which = "next_is_rc_of_cur" if "rc-of" in ty else "next_is_cur"
+                        same = self.choose(which, (False, True))
+                        return mkbool(same if name == "eq" else not same)
         return NotImplemented
 
     def opaque_field(self, it, v, i, fty):
@@ -186,6 +198,11 @@ def hash_step_spec(g):
     term = ("Terminal", "cur", d)
     if g("n_cur") != 1 or (canon and g("pal_cur")):
         return term
+    # a neighbour that is the current k-mer itself (or, unstranded, its reverse complement: the same table entry) is already on the path
+    # and therefore not available: rows claiming otherwise are outside the walk's invariant
+    if g("next_is_cur") or (canon and g("next_is_rc_of_cur")):
+        if g("present") and g("avail"):
+            return BOTTOM
     f = canon and g("flip")
     if not g("present") or not g("avail"):
         return term
